@@ -331,6 +331,55 @@ def _candidates(prog: Program):
 _counter = [0]
 
 
+def _direct_attr_writes(fn_node) -> Set[str]:
+    """attribute names re-bound in this function (``x.a = ..``, ``x.a += ..``, for/with targets, setattr)."""
+    out: Set[str] = set()
+    for n in ast.walk(fn_node):
+        if isinstance(n, ast.Attribute) and isinstance(n.ctx, (ast.Store, ast.Del)):
+            out.add(n.attr)
+        elif isinstance(n, ast.Call) and isinstance(n.func, ast.Name) and n.func.id in ("setattr", "delattr"):
+            if len(n.args) >= 2 and isinstance(n.args[1], ast.Constant) and isinstance(n.args[1].value, str):
+                out.add(n.args[1].value)
+            else:
+                out.add("*")
+        elif isinstance(n, ast.Attribute) and n.attr == "__dict__":
+            out.add("*")
+    return out
+
+
+def _may_rebind_attrs(prog: Program, f: FunctionInfo, names: Set[str]) -> bool:
+    """Can running f re-bind an attribute called one of ``names`` on any object?  Closure over resolved package callees;
+    an unresolved method call ``x.m(..)`` may reach every package function called m."""
+    cache = getattr(prog, "_attr_write_cache", None)
+    if cache is None:
+        cache = prog._attr_write_cache = {}
+    by_name: Dict[str, List[FunctionInfo]] = {}
+    for g in prog.functions():
+        by_name.setdefault(g.name, []).append(g)
+    seen: Set[int] = set()
+    stack = [f]
+    while stack:
+        g = stack.pop()
+        if id(g.node) in seen:
+            continue
+        seen.add(id(g.node))
+        w = cache.get(id(g.node))
+        if w is None:
+            w = cache[id(g.node)] = _direct_attr_writes(g.node)
+        if "*" in w or (w & names):
+            return True
+        for call, tg in prog.calls_in(g):
+            pk = [t for t in tg if isinstance(t, FunctionInfo)]
+            if pk:
+                stack.extend(pk)
+            elif not tg and isinstance(call.func, ast.Attribute):
+                stack.extend(by_name.get(call.func.attr, []))
+                stack.extend(by_name.get("__call__", []) if False else [])
+            elif not tg and isinstance(call.func, ast.Name):
+                stack.extend(by_name.get(call.func.id, []))
+    return False
+
+
 def _inline_site(prog: Program, f: FunctionInfo, body, caller: FunctionInfo, call: ast.Call, stmt: ast.stmt, kind: str, is_static: bool, taken: Set[str]):
     _counter[0] += 1
     k = _counter[0]
@@ -395,6 +444,15 @@ def _inline_site(prog: Program, f: FunctionInfo, body, caller: FunctionInfo, cal
         simple = isinstance(arg, ast.Constant) or (isinstance(arg, ast.Name) and arg.id not in callee_assigned)
         if not simple and pure_body and _is_attr_chain(arg):
             simple = True  # ``self.lb`` read by a helper that stores nothing and calls only numpy / builtins
+        if not simple and _is_attr_chain(arg) and isinstance(arg, ast.Attribute):
+            # ``self.u`` handed to a helper that (with everything it may call) never re-binds an attribute of that name:
+            # the parameter is the attribute for the whole body
+            chain, root = set(), arg
+            while isinstance(root, ast.Attribute):
+                chain.add(root.attr)
+                root = root.value
+            if isinstance(root, ast.Name) and root.id not in callee_assigned and not _may_rebind_attrs(prog, f, chain):
+                simple = True
         if simple and p not in callee_assigned:
             subst[p] = arg
         else:
@@ -780,9 +838,18 @@ def normalise(prog: Program) -> Tuple[Program, List[str]]:
         for f, body, sites, ctxs, is_static in plan:
             if any(isinstance(t, FunctionInfo) and t in cand and t is not f for _c, tg in prog.calls_in(f) for t in tg):
                 continue  # inline its own helpers first
+            deferred = 0
             for (caller, call), (stmt, kind) in zip(sites, ctxs):
+                # an earlier inlining of this round may have replaced the statement (nested sites f(g(x))): the stale
+                # context is not used, the site is taken up again in the next round on the rebuilt program
+                if _block_of(prog, stmt) is None or not any(n is call for n in ast.walk(stmt)):
+                    deferred += 1
+                    continue
                 taken = taken_by_caller.setdefault(caller, _all_names(caller.node))
                 _inline_site(prog, f, body, caller, call, stmt, kind, is_static, taken)
+                changed = True
+            if deferred:
+                continue
             # drop the definition
             container = f.cls.node.body if f.cls is not None else f.module.tree.body
             container[:] = [x for x in container if x is not f.node]
@@ -792,6 +859,11 @@ def normalise(prog: Program) -> Tuple[Program, List[str]]:
             break
         trees = {m.relpath: m.tree for m in prog.modules.values()}
         prog = Program(prog.root, override_trees=trees)
+    # small aggregates (private NamedTuples, literal tuples) back to scalars
+    from .aggregates import flatten_aggregates
+
+    prog, agg = flatten_aggregates(prog)
+    log += agg
     # dict-literal wrappers
     dw = expand_dict_wrappers(prog)
     if dw:
@@ -839,4 +911,8 @@ def normalise(prog: Program) -> Tuple[Program, List[str]]:
         log.append(f"{ff.qualname} (single-exit form)")
         trees = {m.relpath: m.tree for m in prog.modules.values()}
         prog = Program(prog.root, override_trees=trees)
+    # CFGs built during normalisation (role discovery) describe trees that were rewritten afterwards
+    from . import cfg as _cfg
+
+    _cfg._cache.clear()
     return prog, log
